@@ -279,6 +279,10 @@ var mutants = []Mutant{
 	{"C19", "gate-refusal-nil", "store/fscache/fscache.go", [][2]string{{"\tif g.abandoned {\n\t\treturn context.DeadlineExceeded\n\t}\n\treturn step()", "\tif g.abandoned {\n\t\treturn nil\n\t}\n\treturn step()"}}, "C19.20", "wave 9"},
 	{"C20", "late-background-response-left-open", "roundtripper.go", [][2]string{{"\t\t\tif resp.Body != nil { // a hand-written upstream may leave it nil\n\t\t\t\t_ = resp.Body.Close()\n\t\t\t}\n\t\t\terrc <- req.Context().Err()\n", "\t\t\terrc <- req.Context().Err()\n"}}, "C20.13", "D90"},
 	{"C14", "root-opened-on-base", "store/fscache/fscache.go", [][2]string{{"\tc.base = filepath.Join(c.base, appname)\n\tif err := os.MkdirAll(c.base, 0o755); err != nil {", "\tdir := filepath.Join(c.base, appname)\n\tif err := os.MkdirAll(dir, 0o755); err != nil {"}}, "C14.27", "wave 9"},
+	{"C07", "location-resolved-the-other-way", "internal/cacheinvalidator.go", [][2]string{{"locURL = reqURL.ResolveReference(locURL)", "locURL = locURL.ResolveReference(reqURL)"}}, "C07.19", "round 4"},
+	{"C11", "meta-line-writes-one-time-twice", "internal/entry.go", [][2]string{{"\t\tr.RequestedAt.Format(time.RFC3339Nano),\n", "\t\tr.ReceivedAt.Format(time.RFC3339Nano),\n"}}, "C11.21", "round 4"},
+	{"C09", "meta-line-read-from-other-column", "internal/entry.go", [][2]string{{"time.Parse(time.RFC3339Nano, string(parts[2]))", "time.Parse(time.RFC3339Nano, string(parts[1]))"}}, "C09.29", "round 4"},
+	{"C14", "file-gets-the-key-bytes", "store/fscache/fscache.go", [][2]string{{"\tif _, err := f.Write(entry); err != nil {", "\tif _, err := f.Write([]byte(key)); err != nil {"}}, "C14.28", "round 4"},
 	{"C14", "listing-by-path-name", "store/fscache/fscache.go", [][2]string{{"\tc.dw = dirWalkerFunc(func(dir string, fn fs.WalkDirFunc) error {\n\t\treturn fs.WalkDir(c.root.FS(), \".\", func(name string, d fs.DirEntry, err error) error {\n\t\t\treturn fn(filepath.Join(dir, filepath.FromSlash(name)), d, err)\n\t\t})\n\t})\n", "\tc.dw = dirWalkerFunc(filepath.WalkDir)\n"}}, "C14.21", "D88"},
 	{"C19", "vary-name-as-sent", "internal/normalization.go", [][2]string{{"\t\t\tif !yield(storableValue(name), value) {", "\t\t\tif !yield(name, value) {"}}, "C19.15", "D89"},
 	{"C02", "directive-map-edited-in-place", "roundtripper.go", [][2]string{{"\t\tfreshnessReq = maps.Clone(ccReq)\n", "\t\tfreshnessReq, _ = ccReq, maps.Clone(ccReq)\n"}}, "C02.13", "wave 6: the parser's map is edited"},
